@@ -202,6 +202,7 @@ func (g *Group) MinIndex() int {
 // NOTE: Writes are buffered so they don't write synchronously
 // TODO: Make it halt if space is unavailable
 func (g *Group) Write(p []byte) (nn int, err error) {
+	defer verifAfterWrite(g) // verification hook (build tag verif; empty otherwise); runs after the Unlock below
 	g.mtx.Lock()
 	defer g.mtx.Unlock()
 	return g.headBuf.Write(p)
